@@ -123,10 +123,11 @@ def FromS (S : Schema) (td : TypeDef) : Prop := ∃ n, S.typeDef? n = some td
     the fault does not exist.  Established by `schemaQ_of_positions` (all positions of the schema document satisfy
     `Q`) and by `schemaQ_of_facts` (the schema has no such fault, any `Q`). -/
 structure SchemaQ (S : Schema) (Q : Pos → Prop) : Prop where
-  inputs : ∀ {n td}, S.typeDef? n = some td → ∀ f ∈ td.inputs, TOk S Q f.ty
-  fieldArgs : ∀ {n td}, S.typeDef? n = some td → ∀ fd ∈ td.fields, ∀ a ∈ fd.args, TOk S Q a.ty
+  inputs : ∀ {n td}, S.typeDef? n = some td → td.kind = .input → ∀ f ∈ td.inputs, TOk S Q f.ty
+  fieldArgs : ∀ {n td}, S.typeDef? n = some td → (td.kind = .object ∨ td.kind = .interface) →
+    ∀ fd ∈ td.fields, ∀ a ∈ fd.args, TOk S Q a.ty
   dirArgs : ∀ {n dd}, S.directiveDef? n = some dd → ∀ a ∈ dd.args, TOk S Q a.ty
-  members : ∀ {n td}, S.typeDef? n = some td → ∀ m ∈ td.members,
+  members : ∀ {n td}, S.typeDef? n = some td → td.kind = .union → ∀ m ∈ td.members,
     (∃ o, S.typeDef? m.1 = some o ∧ o.kind = .object) ∨ Q m.2
 
 /-! ### the schema's own positions -/
@@ -186,10 +187,10 @@ theorem directiveDef_args_PQ {dd : DirectiveDef} (h : PQ Q dd.positions) : ∀ a
 
 /-- if every position of the schema document satisfies `Q`, the schema is fine for `Q` -/
 theorem schemaQ_of_positions (hS : PQ Q (TsDoc.positions S.items)) : SchemaQ S Q where
-  inputs h f hf := Or.inr (typeDef_inputs_PQ (typeDef_PQ hS h) f hf)
-  fieldArgs h fd hfd a ha := Or.inr (typeDef_fields_args_PQ (typeDef_PQ hS h) fd hfd a ha)
+  inputs h _ f hf := Or.inr (typeDef_inputs_PQ (typeDef_PQ hS h) f hf)
+  fieldArgs h _ fd hfd a ha := Or.inr (typeDef_fields_args_PQ (typeDef_PQ hS h) fd hfd a ha)
   dirArgs h a ha := Or.inr (directiveDef_args_PQ (directiveDef_PQ hS h) a ha)
-  members h m hm := Or.inr (typeDef_members_PQ (typeDef_PQ hS h) m hm)
+  members h _ m hm := Or.inr (typeDef_members_PQ (typeDef_PQ hS h) m hm)
 
 end schema
 
@@ -362,13 +363,15 @@ theorem checkValue_Q : ∀ (k : Nat) (v : Value), v.size ≤ k → ∀ (t : GTyp
       | some td =>
         simp only
         apply allQ_ite
-        · intro _
+        · intro hkb
+          have hk : td.kind = .input := by
+            cases hk' : td.kind <;> first | rfl | (rw [hk'] at hkb; exact absurd hkb (by decide))
           apply objResult_Q
           · intro o ho
             obtain ⟨f, hf, rfl⟩ := List.mem_map.mp ho
             apply fieldOutcome_Q
             intro ds hds
-            exact hfields fs (by omega) _ _ _ (pq_cons.mp hv).2 (hS.inputs htd f hf) ds hds
+            exact hfields fs (by omega) _ _ _ (pq_cons.mp hv).2 (hS.inputs htd hk f hf) ds hds
           · exact hvp
         · intro _
           rw [allQ_append]
